@@ -605,7 +605,7 @@ int read_msf(struct in_buffer* b,struct msa** m)
                                         seq_ptr->name[i] = 0;
                                         break;
                                 }
-                                if(isspace((int)p[i])){
+                                if(isspace((int)p[i]) || p[i] == 0){
                                         seq_ptr->name[i] = 0;
                                         break;
                                 }
@@ -626,6 +626,9 @@ int read_msf(struct in_buffer* b,struct msa** m)
                         active_seq = 0;
                 }else{
                         if(!isspace(line[0])){
+                                if(active_seq >= msa->numseq){
+                                        ERROR_MSG("MSF block has more sequence lines than Name: entries.");
+                                }
                                 seq_ptr = msa->sequences[active_seq];
                                 //p = strstr(line,seq_ptr->name);
                                 //if(p){
